@@ -545,24 +545,58 @@ fn main() {
         cfgs.chunks(per).map(|c| c.to_vec()).collect()
     };
     let results: std::sync::Mutex<Vec<(Config, Stats)>> = std::sync::Mutex::new(Vec::new());
+    let hung: std::sync::Mutex<Vec<Vec<Config>>> = std::sync::Mutex::new(Vec::new());
     mcx::par_for(chunks.len() as u64, 1, |i| {
         let chunk = &chunks[i as usize];
-        let out = std::process::Command::new(&exe)
+        // worker output goes to a file so that the parent can enforce a wall-clock limit
+        let out_dir = format!("{}/work", mcx::out_root());
+        std::fs::create_dir_all(&out_dir).ok();
+        let out_path = format!("{out_dir}/c25-worker-{}-{i}.out", std::process::id());
+        let file = std::fs::File::create(&out_path).unwrap_or_else(|e| mcx::machinery(&format!("cannot create {out_path}: {e}")));
+        let mut child = std::process::Command::new(&exe)
             .arg("--worker")
             .arg("none")
             .arg(max_per_config.to_string())
             .arg(serde_json::to_string(chunk).unwrap())
-            .output()
+            .stdout(file)
+            .stderr(std::process::Stdio::null())
+            .spawn()
             .unwrap_or_else(|e| mcx::machinery(&format!("cannot start worker: {e}")));
-        if !out.status.success() {
-            mcx::machinery(&format!("worker failed: {}\n{}", out.status, String::from_utf8_lossy(&out.stderr)));
+        let limit = std::time::Duration::from_secs(if thorough { 3600 } else { 600 });
+        let started = std::time::Instant::now();
+        let status = loop {
+            match child.try_wait() {
+                Ok(Some(st)) => break Some(st),
+                Ok(None) => {
+                    if started.elapsed() > limit {
+                        let _ = child.kill();
+                        let _ = child.wait();
+                        break None;
+                    }
+                    std::thread::sleep(std::time::Duration::from_millis(50));
+                }
+                Err(e) => mcx::machinery(&format!("waiting for worker failed: {e}")),
+            }
+        };
+        let text = std::fs::read_to_string(&out_path).unwrap_or_default();
+        let _ = std::fs::remove_file(&out_path);
+        match status {
+            None => {
+                // a thread of the program under test runs forever without reaching a gate, or the process is stuck
+                hung.lock().unwrap().push(chunk.clone());
+                return;
+            }
+            Some(st) if !st.success() => mcx::machinery(&format!("worker failed: {st}")),
+            _ => (),
         }
-        let text = String::from_utf8_lossy(&out.stdout);
         let line = text.lines().last().unwrap_or("");
         let parsed: Vec<(Config, Stats)> = serde_json::from_str(line).unwrap_or_else(|e| mcx::machinery(&format!("bad worker output: {e}: {line}")));
         results.lock().unwrap().extend(parsed);
     });
     let results = results.into_inner().unwrap();
+    for chunk in hung.into_inner().unwrap() {
+        ctx.violation("exploration does not terminate (worker exceeded its wall-clock limit)", json!({"config": chunk.first(), "schedule": []}), json!({"configs_in_chunk": chunk}));
+    }
     let mut capped = 0u64;
     for (cfg, st) in &results {
         ctx.add_states(st.schedules);
@@ -596,13 +630,31 @@ fn main() {
     if capped > 0 {
         ctx.cap_hit(&format!("{capped} configurations hit the cap of {max_per_config} schedules"));
     }
-    // sequential conformance of the scheduler-controlled build with the real library
-    let mut conf = 0u64;
-    for c in cfgs.iter().filter(|c| c.producers.is_empty() && !c.late_sender && c.finish == Finish::Collect) {
-        if let Err(e) = conformance(c) {
-            mcx::machinery(&format!("conformance with the real library failed: {e} (config {c:?})"));
+    // sequential conformance of the scheduler-controlled build with the real library.
+    // It runs on real threads with the real channel, so a defect that makes collect() hang would hang
+    // the harness: run it on a watchdog-guarded thread.
+    let conf_cfgs: Vec<Config> = cfgs.iter().filter(|c| c.producers.is_empty() && !c.late_sender && c.finish == Finish::Collect).cloned().collect();
+    let (done_tx, done_rx) = std::sync::mpsc::channel::<Result<u64, (String, Config)>>();
+    std::thread::spawn(move || {
+        let mut n = 0u64;
+        for c in conf_cfgs.iter() {
+            if let Err(e) = conformance(c) {
+                let _ = done_tx.send(Err((e, c.clone())));
+                return;
+            }
+            n += 1;
         }
-        conf += 1;
+        let _ = done_tx.send(Ok(n));
+    });
+    let mut conf = 0u64;
+    match done_rx.recv_timeout(std::time::Duration::from_secs(120)) {
+        Ok(Ok(n)) => conf = n,
+        Ok(Err((e, c))) => mcx::machinery(&format!("conformance with the real library failed: {e} (config {c:?})")),
+        Err(_) => ctx.violation(
+            "real library: collect() does not return (sequential run with a live sender clone)",
+            json!({"config": {"main_msgs": [], "producers": [], "join_before_collect": true, "late_sender": false, "finish": "Collect"}, "schedule": []}),
+            json!({"why": "LogThread::collect() of the real library did not return within 120 s in a single-producer run in which a cloned Sender is still alive"}),
+        ),
     }
     ctx.set("traces_validated_against_real_library", json!(conf));
     ctx.set("bounds", json!({"configs": cfgs.len(), "alphabet": if thorough { format!("{ALPHABET_FULL:?}") } else { format!("{ALPHABET_QUICK:?}") }, "threads": "main + collector + up to 2 producers (+ late sender)", "messages_per_sender": "<= 2 (main alone: <= 3 thorough)", "preemption_bound": "none (all schedules)", "cap_per_config": max_per_config, "horizon_decisions": HORIZON}));
